@@ -118,20 +118,15 @@ def parse_observed(source, stop=False, matcher=None, parser=None, idgen=None, bu
 
 
 def f1_mechanism(o):
-    """The source text was probed/opened as a filesystem path (finding F1)."""
-    if not isinstance(o.source, str):
-        return None
-    if o.source in o.opened:
-        return F1
-    if o.status == "crash" and o.exc_origin and o.exc_origin.startswith("token_scanner.py:__init__"):
-        try:
-            if os.path.exists(o.source):
-                return F1
-        except Exception:
-            pass
-    if o.log is not None and o.log.scanner_kind == "file":
+    """The source text was opened as a filesystem path (finding F1).  Decided by what happened, not by
+    where in the code: the open() audit hook saw exactly the source text as the path."""
+    if isinstance(o.source, str) and o.source in o.opened:
         return F1
     return None
+
+
+def f1_from_opened(text, opened):
+    return F1 if isinstance(text, str) and text in opened else None
 
 
 # --------------------------------------------------------------------------- monitors
